@@ -221,6 +221,14 @@ def extra_trees(tier):
     t["sizes"] = {"big/below.bin": blob("below", MIB - 1), "big/at.bin": blob("at", MIB), "big/above.bin": blob("above", MIB + 1), "big/zero.bin": b"", "s.bin": b"s"}
     t["links"] = {"real/data.bin": "payload", "real/alias.bin": ("link", "data.bin"), "up.lnk": ("link", "real/data.bin"), "other/o.bin": "o"}
     t["order"] = {"B.txt": "1", "a.txt": "2", "_x": "3", "~z": "4", "Z/k": "5", "a/k": "6", "a.d/k": "7", "a-d/k": "8", "10": "9", "9": "10", "ä": "11", "ź": "12"}
+    # one file per format whose digest starts with a zero byte (decoders that drop leading zeros, c4 ids starting "c411")
+    t["zeros"] = {"plain.bin": "p"}
+    for f in FMTS:
+        i = 0
+        while W.decode(f, W.DIGEST[f](b"zero%d" % i))[0] != 0:
+            i += 1
+        t["zeros"][f"z/{f}/lead0.bin"] = b"zero%d" % i
+        t["zeros"][f"z/{f}/other.bin"] = f
     t["onlyignored"] = {"junk/.DS_Store": "x", "junk/in/.DS_Store": "y", "keep/.DS_Store": "x", "keep/k.txt": "k"}
     nested = {
         "wide": [[], ["sub"]],
@@ -229,6 +237,7 @@ def extra_trees(tier):
         "links": [[], ["real"]],
         "order": [[], ["a"]],
         "onlyignored": [[], ["junk"]],
+        "zeros": [[], ["z/c4"]],
     }
     return t, nested
 
@@ -400,13 +409,12 @@ def main():
         "create + verify -dh -co; (tree, one in-place rename or content edit, format, observation route) for the relations; "
         "(history script, step) for later generations; (tree, ignore pattern list, placement) for ignoring. non-trivial = distinct "
         "such tuple whose tree has at least one directory or file; every directory of the world is compared in every requested format",
-        bound="16 trees (<= 60 entries quick / 120 thorough, depth <= 4, directories with 0..13 (quick) / 0..41 (thorough) children, duplicate digests, "
+        bound="17 trees (<= 60 entries quick / 120 thorough, depth <= 4, directories with 0..13 (quick) / 0..41 (thorough) children, duplicate digests, digests with a leading zero byte in each format, "
         "empty files/dirs, files at 2^20-1/2^20/2^20+1 bytes, file symlinks, names with spaces / NFC+NFD / XML-special / U+2028 / "
         "prefix siblings / case pairs), <= 3 nested histories up to 3 levels, 10 format sets incl. all six (quick) or all 1-2 subsets + "
         "all six (thorough), 5 root spellings, 3 enumeration orders, every rename/edit of the relation trees (sampled in quick), "
-        "histories of <= 13 generations with -n / -sf / failed / -dr / changing format sets, 14 ignore pattern lists",
+        "histories of <= 13 generations with -n / -sf / failed / -dr / changing format sets, 17 ignore pattern lists on the first generation (-i and -ii) plus negation / -ii / trailing-slash patterns added in later generations and -i on verify",
     )
-    rnd = random.Random(run.seed)
     thorough = run.tier == "thorough"
     trees = dict(S.TREES)
     nesteds = dict(S.NESTED)
@@ -723,7 +731,6 @@ def main():
             f = fmts[0]
             code, out, exc = W.run("verify", [root, "-dh", "-co", "-h", f, "-i", "*.bin", "-i", "B/"])
             check_verify(ck, root, pats + ["*.bin", "B/"], [f], out, code, exc, inp=dict(inp, verify_extra=["*.bin", "B/"]), wclass="verify-ignore")
-    _ = rnd
     run.finish()
 
 
